@@ -4,7 +4,7 @@ import MJ.Model.Json
 
   rt <shape> ; <data>             → `<value canon>\t<ok data canon|err|?>`
   x <shape> ; <data> ; <shape2>   → same, deserialising with `shape2`
-  json <mode> <value desc>        → `<hex of model text>|refuse|?` `\t` `<parse-back verdict>`
+  json <mode> <value desc>\t<impl hex> → `<hex of model text>|refuse|?` `\t` `back:…` `\t` `impl:same|perm|differs|noparse`
   jparse <hex>                    → hex of the string the Lean JSON string parser reads from the text
   other lines                     → `-`
 -/
@@ -248,12 +248,22 @@ partial def pVPairN : Nat → Toks → Option (List (V × V) × Toks)
       (pVPairN k r').map fun (ds, r'') => ((a, b) :: ds, r'')
 end
 
-def handleJson (mode : String) (desc : String) : String :=
+/-- members sorted by key, recursively (the value map iterates in its own key order) -/
+partial def normJ : J → J
+  | .arr xs => .arr (xs.map normJ)
+  | .obj ms =>
+    .obj ((ms.map fun p => (p.1, normJ p.2)).mergeSort
+      (fun a b => compare (String.ofList a.1) (String.ofList b.1) != .gt))
+  | j => j
+
+def sortedChars (t : List Char) : List Char := t.mergeSort (fun a b => a.toNat ≤ b.toNat)
+
+def handleJson (mode : String) (desc : String) (impl : String) : String :=
   match pVal (toks desc) with
   | some (v, []) =>
     match jsonOf v with
-    | .refuse => "refuse\t-"
-    | .unmodelled => "?\t-"
+    | .refuse => "refuse\t-\t-"
+    | .unmodelled => "?\t-\t-"
     | .ok j =>
       let text : Option (List Char) :=
         match mode with
@@ -264,13 +274,23 @@ def handleJson (mode : String) (desc : String) : String :=
         | "auto_json" | "auto_js" => some (writeJ .compact j)
         | _ => none
       match text with
-      | none => "?\t-"
+      | none => "?\t-\t-"
       | some t =>
         let back := match parseJ t with
                     | some j' => if j' == j then "back:ok" else "back:differs"
                     | none => "back:noparse"
-        s!"{hexOfStr t}\t{back}"
-  | _ => "bad-case\t-"
+        -- the engine's own text, read by the Lean JSON reader
+        let implV :=
+          match strOfHex impl with
+          | none => "impl:nohex"
+          | some it =>
+            if it == t then "impl:same"
+            else match parseJ it with
+              | none => "impl:noparse"
+              | some ji =>
+                if normJ ji == normJ j && sortedChars it == sortedChars t then "impl:perm" else "impl:differs"
+        s!"{hexOfStr t}\t{back}\t{implV}"
+  | _ => "bad-case\t-\t-"
 
 def handleJparse (h : String) : String :=
   match strOfHex h with
@@ -281,13 +301,14 @@ def handleJparse (h : String) : String :=
     | none => "noparse"
 
 def handle (line : String) : String :=
-  let case := (line.splitOn "\t").head!
+  let fields := line.splitOn "\t"
+  let case := fields.head!
   if case.startsWith "rt " then handleRt (case.drop 3).toString
   else if case.startsWith "x " then handleRt (case.drop 2).toString
   else if case.startsWith "json " then
     match (case.drop 5).toString.splitOn " " with
-    | mode :: rest => handleJson mode (" ".intercalate rest)
-    | [] => "bad-case\t-"
+    | mode :: rest => handleJson mode (" ".intercalate rest) (fields.getD 1 "")
+    | [] => "bad-case\t-\t-"
   else if case.startsWith "jparse " then handleJparse (case.drop 7).toString
   else "-"
 
